@@ -487,6 +487,30 @@ fn socket_io(c: &mut Ctx<'_>, real: &mut Real, rng: &mut Rng) -> Result<(), Watc
         c.fail(&format!("getsockopt-result:{kind}"), format!("SO_SNDBUF after setting {v}: a10 {got:?}, getsockopt {out}"));
     }
     c.case(&format!("sockopt:{kind}"), format!("sndbuf={v}"));
+    // socket names vs getsockname(2)/getpeername(2) (stream pairs are unnamed Unix sockets; the
+    // length the kernel reports is what tells unnamed from named).
+    for (which, peer) in [("local_addr", false), ("peer_addr", true)] {
+        let got: std::io::Result<std::os::unix::net::SocketAddr> =
+            if peer { real.block_on(afd.peer_addr())? } else { real.block_on(afd.local_addr())? };
+        let mut st: libc::sockaddr_un = unsafe { std::mem::zeroed() };
+        let mut len = std::mem::size_of::<libc::sockaddr_un>() as libc::socklen_t;
+        let r = unsafe {
+            if peer {
+                libc::getpeername(b1.as_raw_fd(), std::ptr::from_mut(&mut st).cast(), &mut len)
+            } else {
+                libc::getsockname(b1.as_raw_fd(), std::ptr::from_mut(&mut st).cast(), &mut len)
+            }
+        };
+        let posix_unnamed = r == 0 && len as usize <= std::mem::size_of::<libc::sa_family_t>();
+        match &got {
+            Ok(a) if r == 0 && a.is_unnamed() == posix_unnamed => {}
+            // The kernel has no socket-name command and a direct descriptor cannot be
+            // given to getsockname(2): an honest "unsupported" is not a difference.
+            Err(e) if direct && e.raw_os_error() == Some(libc::EOPNOTSUPP) => c.case("socket-name-unsupported:direct", which.to_string()),
+            _ => c.fail(&format!("socket-name-result:{kind}"), format!("{which}: a10 {got:?}, POSIX call returned {r} (unnamed={posix_unnamed}, length {len})")),
+        }
+        c.case(&format!("socket-name:{kind}"), which.to_string());
+    }
     // shutdown
     let how = *rng.pick(&[std::net::Shutdown::Write, std::net::Shutdown::Read, std::net::Shutdown::Both]);
     let got = real.block_on(afd.shutdown(how))?;
@@ -601,7 +625,7 @@ pub mod abi_sweep {
     use a10::fd::Kind;
 
     use crate::mon::alloc;
-    use crate::ops::{DynOp, Outcome, fut_op};
+    use crate::ops::{DynOp, Outcome, fut_op, iter_op};
     use crate::out::{Report, ViolationOut};
     use crate::rng::{Rng, fnv};
     use crate::simk::abi::*;
@@ -635,7 +659,7 @@ pub mod abi_sweep {
         let fd: &'static a10::AsyncFd = if use_direct { w.env.as_ref().unwrap().dfd.unwrap() } else { w.env.as_ref().unwrap().fd };
         let raw_fd: i64 = crate::ops::raw_of(fd);
         let fixed = if use_direct { u64::from(IOSQE_FIXED_FILE) } else { 0 };
-        let which = rng.below(22);
+        let which = rng.below(24);
         let mut exp: Expect = Vec::new();
         let mut strings: Vec<(&'static str, Vec<u8>, Box<dyn Fn(&Sqe) -> u64>)> = Vec::new();
         let mut name: &'static str = "?";
@@ -913,6 +937,23 @@ pub mod abi_sweep {
                 exp.push(field("addrlen value", 28, |s| unsafe { u64::from(rd_u32(s.off())) }));
                 exp.push(field("FIXED_FILE", fixed, |s| u64::from(s.flags() & IOSQE_FIXED_FILE)));
                 fut_op(fd.accept::<std::net::SocketAddr>(), unit)
+            }
+            21 => {
+                name = "multishot_accept";
+                exp.push(field("opcode", u64::from(OP_ACCEPT), |s| u64::from(s.opcode())));
+                exp.push(field("fd", raw_fd as u64, |s| s.fd() as u64));
+                exp.push(field("ioprio (multishot)", u64::from(ACCEPT_MULTISHOT), |s| u64::from(s.ioprio())));
+                exp.push(field("accept_flags", if use_direct { 0 } else { libc::SOCK_CLOEXEC as u64 }, |s| u64::from(s.op_flags())));
+                exp.push(field("file_index", if use_direct { u64::from(FILE_INDEX_ALLOC) } else { 0 }, |s| u64::from(s.file_index())));
+                exp.push(field("FIXED_FILE", fixed, |s| u64::from(s.flags() & IOSQE_FIXED_FILE)));
+                iter_op(fd.multishot_accept(), |it, cx| it.poll_next(cx), |r: std::io::Result<a10::AsyncFd>| match r {
+                    Ok(a) => {
+                        let mut o = Outcome::ok(crate::ops::raw_of(&a));
+                        o.afds.push(a);
+                        o
+                    }
+                    Err(e) => Outcome::err(&e),
+                })
             }
             _ => {
                 name = "read_write_offsets";
